@@ -81,6 +81,15 @@ def _is_cnan(x) -> bool:
     return isinstance(x, (complex, np.complexfloating)) and (x.real != x.real or x.imag != x.imag)
 
 
+_EPS64 = float(np.finfo(np.float64).eps)
+
+
+def _idealise_eps():
+    from .ctx import active
+
+    return active() and bool(cur().options.get("idealise_eps"))
+
+
 def lift(x) -> Poly | None:
     """Number -> Poly ; returns None for NaN"""
     if isinstance(x, Sym):
@@ -96,6 +105,8 @@ def lift(x) -> Poly | None:
             return None
         if math.isinf(x):
             raise EngineError("infinite constant")
+        if x == _EPS64 and _idealise_eps():
+            return ZERO  # additive stabiliser h + eps idealised to h (stated in the evidence)
         return Poly.const(float(x))
     if isinstance(x, Fraction):
         return Poly.const(x)
@@ -460,11 +471,11 @@ def frac_power(q: Poly, e: Fraction) -> Poly:
             return Poly.const(fr)
     c = cur()
     den = e.denominator
-    if den == 2 and c.positive_vars and len(q.t) >= 1:
+    if den == 2 and (c.positive_vars or c.nonneg_vars) and len(q.t) >= 1:
         # sqrt(v^2 * q') = v * sqrt(q') for variables known to be positive (e.g. std(a*x) = a*std(x))
         common = None
         for m in q.t:
-            d = {v: ex for v, ex in m if v in c.positive_vars and ex >= 2}
+            d = {v: ex for v, ex in m if (v in c.positive_vars or v in c.nonneg_vars) and ex >= 2}
             if common is None:
                 common = d
             else:
@@ -485,6 +496,37 @@ def frac_power(q: Poly, e: Fraction) -> Poly:
                 if n == -1:
                     return reciprocal(out)
                 return Sym(out).__pow__(n).p
+    if den == 2 and len(q.t) >= 1:
+        # factor the rational content: sqrt(c * q') = sqrt(c) * sqrt(q') with q' monic in its first monomial, so that
+        # sqrt(3*t), sqrt(t/3) and sqrt(t) share ONE root symbol for t and one for the square-free part of the constant
+        lead_m, lead_c = min(q.t.items())
+        if lead_c > 0 and lead_c != 1:
+            qn = q.scale(1 / lead_c)
+            inner = frac_power(qn, Fraction(1, 2))
+            N = lead_c.numerator * lead_c.denominator
+            msq, f = 1, N
+            d_ = 2
+            while d_ * d_ <= f:
+                while f % (d_ * d_) == 0:
+                    f //= d_ * d_
+                    msq *= d_
+                d_ += 1
+            coef = Fraction(msq, lead_c.denominator)
+            out = inner.scale(coef)
+            if f > 1:
+                kc = c.caches.setdefault("sqrt_const", {})
+                if f not in kc:
+                    kv = c.new_var(f"SQRT{f}", "aux", math.sqrt(f), f"sqrt({f})")
+                    c.assume("eq", kv * kv - Poly.const(f), "def-root (constant)")
+                    c.assume("gt", kv, "root positive")
+                    kc[f] = kv
+                out = out * kc[f]
+            n = e.numerator
+            if n == 1:
+                return out
+            if n == -1:
+                return reciprocal(out)
+            return Sym(out).__pow__(n).p
     cache = c.caches.setdefault("root", {})
     k = (q.key(), den)
     if k not in cache:
